@@ -38,8 +38,33 @@ META = {
 }
 
 PREFIXES = [0x66, 0x67, 0xF0, 0xF2, 0xF3, 0x26, 0x2E, 0x36, 0x3E, 0x64, 0x65] + list(range(0x40, 0x50))
-# ops whose encodings were added to / changed in the toolchain's newer table after goom's copy was taken (classification rule, see run()).
-NEWER_REF_OPS = {'UD0', 'UD1', 'FLDZ', 'FLDLN2', 'FLDLG2', 'FLDPI', 'FLDL2E', 'FLDL2T', 'FLD1'}
+LEGACY = {0x66, 0x67, 0xF0, 0xF2, 0xF3, 0x26, 0x2E, 0x36, 0x3E, 0x64, 0x65}
+
+
+def changed_encoding(hexs):
+    """Classification rule for goom-vs-reference differences on SYNTHETIC strings (never applied to instructions of the walked
+    binaries).  The toolchain's newer table changed exactly three opcode families relative to goom's copy: 0F FF (UD0 now takes a
+    ModRM), 0F B9 (UD1 now takes a ModRM) and D9 E8..EE (x87 constant loads FLD1..FLDZ added).  A difference is benign iff, after a
+    VEX prefix at offset 0 (C5 xx / C4 xx xx), legacy prefixes and one REX byte, the opcode bytes belong to one of these families.
+    Returns the family name or None."""
+    b = bytes.fromhex(hexs) if hexs != '-' else b''
+    i = 0
+    if len(b) > 1 and b[0] == 0xC5:
+        i = 2
+    elif len(b) > 2 and b[0] == 0xC4:
+        i = 3
+    while i < len(b) and b[i] in LEGACY:
+        i += 1
+    if i < len(b) and 0x40 <= b[i] <= 0x4F:
+        i += 1
+    r = b[i:]
+    if r[:2] == b'\x0f\xff':
+        return 'UD0 (0F FF)'
+    if r[:2] == b'\x0f\xb9':
+        return 'UD1 (0F B9)'
+    if len(r) >= 2 and r[0] == 0xD9 and 0xE8 <= r[1] <= 0xEE:
+        return 'x87 constant load (D9 E8..EE)'
+    return None
 
 
 def probe_bin():
@@ -284,9 +309,8 @@ def run(tier):
         out.violation('text walk: ' + line[8:], {'kind': 'impl-oracle', 'ops': ['c16.dec ' + h], 'why': line})
     # 2. agreement with the independent reference
     #    rule: on every instruction of the walked binaries and on every `text`/`trunc`-of-full-instruction op: zero tolerance.
-    #    on synthetic strings (mutated / random / systematic) a difference is *classified*, not ignored: benign iff the reference
-    #    decodes an opcode that the newer table knows and goom's older copy does not (NEWER_REF_OPS) or a prefix-only/invalid form
-    #    (reference Op(0)); everything else is reported.
+    #    on synthetic strings (mutated / truncated / random / systematic) a difference is *classified*, not ignored: benign iff the
+    #    input belongs to one of the three opcode families the newer reference table changed (changed_encoding); everything else is reported.
     text_differ = sum(s.get('differ', 0) for s in estats.values())
     for line in [n for n in notes if n.startswith('#differ')][:2]:
         h = line.split()[1]
@@ -296,16 +320,11 @@ def run(tier):
     unexplained = []
     for i, op in enumerate(ops):
         if impl[i] != ref[i] and impl[i] is not None and ref[i] is not None:
-            r = parse(ref[i])
-            g = parse(impl[i])
-            if lanes[i] == 'text':
+            fam = None if lanes[i] == 'text' else changed_encoding(op.split()[1])
+            if fam is None:
                 unexplained.append(i)
-            elif r[2] in NEWER_REF_OPS:
-                refdiff['newer-opcode:' + r[2]] += 1
-            elif r[0] != 'ok' or g[0] != 'ok' or r[2] == 'Op(0)' or g[2] == 'Op(0)':
-                refdiff[f'invalid-form:{g[0]}/{g[2] if g[2] == "Op(0)" else "op"}-vs-{r[0]}/{r[2] if r[2] == "Op(0)" else "op"}'] += 1
             else:
-                unexplained.append(i)
+                refdiff['newer-table family: ' + fam] += 1
     if not bad:
         for i in unexplained[:2]:
             out.violation(f'goom and the reference decoder disagree on `{ops[i]}` ({lanes[i]} lane) outside the stated classes',
